@@ -36,7 +36,7 @@ RULE = (
     "a further emission from the same emitter."
 )
 PROBES = ["reset_then_emission", "two_or_more_emitters", "disconnected_target", "isolated_vertex_target",
-          "dm_presented_target", "stabilizer_presented_target", "solver_with_dm_compiler", "solver_probabilistic"]
+          "dm_presented_target", "stabilizer_presented_target", "solver_with_dm_compiler", "solver_probabilistic", "solve_called_twice"]
 REAL = ["graphiq.solvers.time_reversed_solver.TimeReversedSolver", "graphiq.metrics.Infidelity",
         "StabilizerCompiler / DensityMatrixCompiler", "graphiq.state.QuantumState (+ representation conversion of the target)",
         "graphiq.backends.stabilizer.functions (rref, height, inverse_circuit, transformation)"]
@@ -50,6 +50,8 @@ ASSUMPTIONS = [
 def gen_case(run_seed, tier):
     sz = stream(run_seed, "sizes")
     nmax = 7 if tier == "thorough" else 6
+    if sz.random() < 0.15:
+        nmax = 8  # a share of larger targets (rare emitter re-use patterns start at 6-8 vertices)
     aim_isolated = sz.random() < 0.1
     if aim_isolated:
         g, fam = graphs.random_graph(sz, 1, nmax, allow_isolated=True)
@@ -62,7 +64,8 @@ def gen_case(run_seed, tier):
     if g[0] > 6 and rep == "dm":
         rep = "s"
     det = sz.choice([0, 1, 2])
-    return {"n": g[0], "edges": [list(e) for e in g[1]], "family": fam, "rep": rep, "backend": backend, "det": det, "oseed": sz.randrange(10**9), "shuffle_edges": sz.random() < 0.3}
+    return {"n": g[0], "edges": [list(e) for e in g[1]], "family": fam, "rep": rep, "backend": backend, "det": det, "oseed": sz.randrange(10**9), "shuffle_edges": sz.random() < 0.3,
+            "solve_twice": sz.random() < 0.3}
 
 
 def simplify(case):
@@ -77,6 +80,10 @@ def simplify(case):
     if case["det"] != 1:
         c = dict(case)
         c["det"] = 1
+        yield c
+    if case.get("solve_twice"):
+        c = dict(case)
+        c["solve_twice"] = False
         yield c
     for i in range(len(case["edges"])):
         c = dict(case)
@@ -133,6 +140,11 @@ def run_case(case):
         with OwnedRNG(random.Random(case["oseed"]), outcomes=OutcomeScript([], fallback=random.Random(case["oseed"] + 1)), ctx=ctx):
             solver = TimeReversedSolver(target=target, metric=metric, compiler=comp)
             solver.solve()
+            if case.get("solve_twice"):
+                # the solver object is used again: the second result must be as good as the first
+                first = solver.result
+                solver.solve()
+                ctx.probe("solve_called_twice")
         score, circ = solver.result
     except core.HarnessError:
         raise
